@@ -487,6 +487,20 @@ def tracked_lists(root, repo=None):
 # ---------------------------------------------------------------------------------------------------
 # R-ACCUM
 # ---------------------------------------------------------------------------------------------------
+def _negated(t):
+    """the test that holds on the other branch"""
+    if isinstance(t, ast.UnaryOp) and isinstance(t.op, ast.Not):
+        return t.operand
+    if isinstance(t, ast.Compare) and len(t.ops) == 1:
+        flip = {ast.In: ast.NotIn, ast.NotIn: ast.In, ast.Eq: ast.NotEq, ast.NotEq: ast.Eq, ast.Is: ast.IsNot, ast.IsNot: ast.Is,
+                ast.Lt: ast.GtE, ast.GtE: ast.Lt, ast.Gt: ast.LtE, ast.LtE: ast.Gt}.get(type(t.ops[0]))
+        if flip is not None:
+            n = ast.Compare(left=t.left, ops=[flip()], comparators=t.comparators)
+            return ast.copy_location(n, t)
+    n = ast.UnaryOp(op=ast.Not(), operand=t)
+    return ast.copy_location(n, t)
+
+
 def _emptiness_guard_attr(test, fn=None):
     """`self.X == list()` / `not self.X` / `len(self.X) == 0` -> 'X';   `p not in self.X.keys()` / `p not in self.X` -> 'X';
     `v is None` with v bound once to `self.X.get(p)` -> 'X' (membership)"""
@@ -589,6 +603,12 @@ def r_accum(ctx, prop_roots=None):
                     reason = "the accumulated entry is rebound (keyed store) earlier in the same function"
                 else:
                     g = [_emptiness_guard_attr(t, fn) for t, br, _ in conds if br]
+                    # guard clauses in front of the statement (`if p in self.X: return ...`) and negated branches count as well
+                    for t, br, _ in flow.effective_guards(common.stmt_of(w.node), stop=fn):
+                        if not br:
+                            g.append(_emptiness_guard_attr(_negated(t), fn))
+                        else:
+                            g.append(_emptiness_guard_attr(t, fn))
                     g = [x for x in g if x]
                     if g:
                         reason = "under the idempotence guard on self.%s" % g[0][0]
@@ -605,9 +625,9 @@ def r_accum(ctx, prop_roots=None):
                 prot = protected
                 st = common.stmt_of(call)
                 if not prot:
-                    for t, br, _ in flow.conditions_guarding(st):
-                        ga = _emptiness_guard_attr(t, fn)
-                        if ga and br:
+                    for t, br, _ in flow.effective_guards(st, stop=fn):
+                        ga = _emptiness_guard_attr(t if br else _negated(t), fn)
+                        if ga:
                             prot = "%s of self.%s in %s" % (ga[1], ga[0], qualname(fn))
                 la = None
                 if call_name(call) in ("Point", "Expression", "Function"):
